@@ -131,3 +131,49 @@ Lemma pl_facts : forall v,
      (Some (VText "j2"), Some (VText "e0")); (Some (VText "j3"), Some (VText "e0"));
      (Some (VText "k0"), Some (VFresh "stub" (VText "k0"))); (Some (VText "k1"), Some (VFresh "stub" (VText "k0")))].
 Proof. destruct v; vm_compute; split; reflexivity. Qed.
+
+(* ------------------------------------------------------------------ companion-value back-fill variants *)
+(** 2.0 database: task t0 was recorded as a PartialTask value, so its companion value row exists
+    but has type "redun.PartialTask". *)
+Definition pt_value : row :=
+  [("value_hash", VText "t0"); ("type", VText "redun.PartialTask"); ("format", VText "application/python-pickle");
+   ("value", VBlob "partial(factor=10)")].
+
+Definition pt_db (v : utc_variant) : db :=
+  with_rows "value" [pt_value]
+    (with_rows "task" [[("hash", VText "t0"); ("name", VText "scale"); ("namespace", VText "wf"); ("source", VText "")]]
+       (built_or_empty v 2)).
+
+Definition pt_result (lt : lonely_test) (wm : write_mode) : db :=
+  match upgrade env0 (chain_gen lt wm KeepFraction) db_versions (pt_db KeepFraction) with Ok d => d | Err _ => empty_db end.
+
+Lemma pt_upgrades : upgrade env0 (chain_gen TypedValue MergeRow KeepFraction) db_versions (pt_db KeepFraction)
+                    = Ok (pt_result TypedValue MergeRow).
+Proof. vm_compute. reflexivity. Qed.
+
+Lemma pt_typed : job_times_typed (pt_db KeepFraction).
+Proof. intros r c v Hin. vm_compute in Hin. contradiction. Qed.
+
+(** (typed test, merge): the PartialTask row is taken for "lonely" and overwritten. *)
+Lemma pt_not_preserved :
+  ~ preserved (expected (e_tz env0) (d_rev (pt_db KeepFraction))) (exempt (d_rev (pt_db KeepFraction)))
+              (pt_db KeepFraction) (pt_result TypedValue MergeRow).
+Proof.
+  intro P.
+  assert (L : exists T, lookup "value" (d_tables (pt_db KeepFraction)) = Some T /\ t_rows T = [pt_value]).
+  { eexists. split; [vm_compute; reflexivity|reflexivity]. }
+  destruct L as (T & L & ET).
+  destruct (P "value" T L) as (T' & L' & rs & ex & E & F).
+  vm_compute in L'. injection L' as <-. simpl in E. rewrite ET in F.
+  inversion F as [|a b l l' Hab Hl]; subst. inversion Hl; subst. simpl in E. injection E as <- _.
+  specialize (Hab "type" (VText "redun.PartialTask") eq_refl).
+  vm_compute in Hab. specialize (Hab eq_refl). discriminate.
+Qed.
+
+(** The other three variants on the same database: (any, add) and (any, merge) keep the row;
+    (typed, add) makes the upgrade fail with the UNIQUE violation. *)
+Lemma pt_other_variants :
+  rows_of "value" (pt_result AnyValue AddRow) = [pt_value] /\
+  rows_of "value" (pt_result AnyValue MergeRow) = [pt_value] /\
+  upgrade env0 (chain_gen TypedValue AddRow KeepFraction) db_versions (pt_db KeepFraction) = Err (EUnique "value" "value_hash").
+Proof. vm_compute. repeat split; reflexivity. Qed.
